@@ -6,7 +6,7 @@ fn main() {
     let key = ThreadKey::get().unwrap();
     let c = LockCollection::new((Mutex::new(1), Mutex::new(2)));
     let g = c.lock(key);
-    let LockGuard { guard, key } = g; //~ ERROR E0451
+    let LockGuard { @{field:LockGuard#0}: guard, @{field:LockGuard~ThreadKey}: key } = g; //~ ERROR E0451
     //~ TWIN: let (guard, key) = ((), LockCollection::<(Mutex<i32>, Mutex<i32>)>::unlock(g));
     drop((guard, key));
 }
